@@ -164,7 +164,10 @@ def flows_oracle(ctx):
             if name == "bnaf":
                 from flowjax.bijections import Invert
                 target = Invert(bij)  # analytic direction
-            errs = autodiff_errors(None, target, x, c, tol=1e-6)
+            try:
+                errs = autodiff_errors(None, target, x, c, tol=1e-6)
+            except Exception as e:
+                errs = [f"raised {type(e).__name__}: {str(e)[:120]} on a valid input"]
             if errs:
                 ctx.violation(sig=f"flow:{name}:logdet", what=f"{name} (shape {bij.shape}, cond {cond}): " + "; ".join(errs),
                               case=dict(flow=name, dim=str(dim), cond=cond, x=x.tolist(), condition=None if c is None else c.tolist()),
